@@ -46,6 +46,7 @@ type meshFinal struct {
 	Tables map[string]map[string]string  `json:"tables"`
 	Costs  map[string]map[string]float64 `json:"costs"`
 	Conns  map[string]map[string]float64 `json:"conns"`
+	Tag    string                        `json:"tag,omitempty"`
 }
 
 func cmdMesh(args []string) {
@@ -79,6 +80,15 @@ func cmdMesh(args []string) {
 			res.Inconclusive = append(res.Inconclusive, "gate scenario: "+gate.inconcl)
 		}
 	}()
+	// also alone (sub-second timing): a transit node is restarted again and again, each instance living well under
+	// a second, with different links each time
+	fast := &scT{}
+	fast.sc, fast.final, fast.names, fast.inconcl = runMeshFastRestartScenario(*scenarios + 1)
+	defer func() {
+		if fast.inconcl != "" {
+			res.Inconclusive = append(res.Inconclusive, "fast-restart scenario: "+fast.inconcl)
+		}
+	}()
 	sem := make(chan struct{}, *par)
 	var wg sync.WaitGroup
 	for i := 0; i < *scenarios; i++ {
@@ -105,6 +115,9 @@ func cmdMesh(args []string) {
 	keep := map[string]bool{}
 	if gate.inconcl == "" {
 		scs = append(scs, gate)
+	}
+	if fast.inconcl == "" {
+		scs = append(scs, fast)
 	}
 	for _, s := range scs {
 		if s.inconcl != "" {
@@ -275,11 +288,7 @@ func runMeshScenario(rng *rand.Rand, idx int, silent bool, maxNodes int) (sc mes
 			}
 			sortStrings(cand)
 			a := cand[rng.Intn(len(cand))]
-			// the restarted instance must start in a later second than the one it replaces (epoch granularity)
-			if d := time.Until(m.Nodes[a].Started.Add(1100 * time.Millisecond)); d > 0 {
-				time.Sleep(d)
-			}
-			time.Sleep(time.Until(time.Now().Truncate(time.Second).Add(1050 * time.Millisecond)))
+			// no waiting for the next wall-clock second: the epoch must order instances started at any distance
 			names[m.Start(a).N.VerifName()] = true
 			delete(stopped, a)
 			ev.Kind, ev.A = "restart", a
@@ -474,6 +483,84 @@ func runMeshGateScenario(idx int) (sc meshScenario, final *meshFinal, names map[
 	}
 	final = &meshFinal{Ev: "final", Sc: idx, Late: late, Real: m.RealGraph(), Tables: map[string]map[string]string{},
 		Costs: map[string]map[string]float64{}, Conns: map[string]map[string]float64{}}
+	for _, id := range m.SortedIDs() {
+		nd := m.Nodes[id]
+		st := nd.N.Status()
+		final.Tables[id] = st.RoutingTable
+		final.Costs[id] = map[string]float64{}
+		for dst := range st.RoutingTable {
+			if cst, err := nd.N.PathCost(dst); err == nil {
+				final.Costs[id][dst] = cst
+			}
+		}
+		final.Conns[id] = map[string]float64{}
+		for _, cn := range st.Connections {
+			final.Conns[id][cn.NodeID] = cn.Cost
+		}
+	}
+
+	return sc, final, names, ""
+}
+
+// runMeshFastRestartScenario: line fD - fA - fB - fC. The transit node fB is stopped and restarted ten times; every
+// instance lives only until the mesh has converged on it (well under a second) and comes back with different links
+// (fA only / fA and fC). C01 quantifies over every sequence of stop and restart events, so the instances of one node
+// must be ordered by their epochs whatever the time between two starts. Stops at the first round that does not
+// converge within 120 update periods (the final state then shows it).
+func runMeshFastRestartScenario(idx int) (sc meshScenario, final *meshFinal, names map[string]bool, inconcl string) {
+	names = map[string]bool{}
+	sc.Index = idx
+	period := 300 * time.Millisecond
+	m := mesh.New(mesh.Opts{RouteUpdate: period}, 777)
+	defer m.StopAll()
+	d, a, b, c := "fD", "fA", "fB", "fC"
+	sc.Nodes = []string{d, a, b, c}
+	for _, id := range []string{d, a, c} {
+		names[m.Start(id).N.VerifName()] = true
+	}
+	if _, err := m.Connect(d, a, 1, 1); err != nil {
+		return sc, nil, names, err.Error()
+	}
+	sc.Links = append(sc.Links, [3]any{d, a, 1.0})
+	late := false
+	for k := 0; k < 10 && !late; k++ {
+		if nd := m.Nodes[b]; nd != nil && !nd.Stopped {
+			m.Stop(b)
+			sc.Events = append(sc.Events, meshEvent{Kind: "stop", A: b})
+		}
+		names[m.Start(b).N.VerifName()] = true
+		sc.Events = append(sc.Events, meshEvent{Kind: "restart", A: b})
+		if _, err := m.Connect(a, b, 1, 1); err != nil {
+			return sc, nil, names, err.Error()
+		}
+		sc.Events = append(sc.Events, meshEvent{Kind: "heal", A: a, B: b, Cost: 1})
+		if k%2 == 1 {
+			if _, err := m.Connect(b, c, 1, 1); err != nil {
+				return sc, nil, names, err.Error()
+			}
+			sc.Events = append(sc.Events, meshEvent{Kind: "heal", A: b, B: c, Cost: 1})
+		}
+		start := time.Now()
+		streak := 0
+		for {
+			if m.LooksConverged() {
+				streak++
+				if streak >= 2 {
+					break
+				}
+			} else {
+				streak = 0
+			}
+			if time.Since(start) > 120*period {
+				late = true
+
+				break
+			}
+			time.Sleep(5 * time.Millisecond)
+		}
+	}
+	final = &meshFinal{Ev: "final", Sc: idx, Late: late, Real: m.RealGraph(), Tables: map[string]map[string]string{},
+		Costs: map[string]map[string]float64{}, Conns: map[string]map[string]float64{}, Tag: "fast-restart"}
 	for _, id := range m.SortedIDs() {
 		nd := m.Nodes[id]
 		st := nd.N.Status()
